@@ -24,8 +24,11 @@ def spec_with_mem(M):
 # lemmas over a built plan
 # ---------------------------------------------------------------------------------------------
 def storage_grid(arr, d):
-    """('regular', size) or ('rect', offsets list) of dimension d of a target array"""
+    """('regular', size) or ('rect', offsets list) of dimension d of a target array.  For a sharded array the stored objects are the
+    SHARDS (an inner chunk is updated by read-modify-write of its shard), so the shard grid is the storage grid"""
     ch = arr.chunks
+    if getattr(arr, "shards", None) is not None:
+        ch = arr.shards
     c = ch[d]
     if isinstance(c, (tuple, list)):
         offs = [0]
@@ -149,6 +152,34 @@ def b_store_region(n, c, tn, tc, a):
     region = (slice(a, a + n),)
     (out,) = cubed.store([x], [target], regions=region, compute=False)
     return out, {"shape": (tn,), "target": target, "region": (a, a + n), "src_chunks": c}
+
+
+def b_store_sharded_inner(n, c, ic, k, a, use_region):
+    """store into an existing SHARDED array with inner chunks `ic` and shards of k inner chunks, whole (use_region=0) or into the
+    region [a, a+n) of a target of length a + n rounded up to a whole number of shards"""
+    import warnings
+
+    import cubed
+
+    c01._start()
+    sx.assume(c <= n)
+    k_ = sx.conc(k)
+    sh = ic * k_
+    if sx.conc(use_region) == 0:
+        sx.assume(a == 0)
+        target = G.ZStub((n,), (ic,), "float64", shards=(sh,))
+        kw = {}
+        info = {"shape": (n,), "target": target, "region": None}
+    else:
+        tn = -((-(a + n)) // sh) * sh
+        target = G.ZStub((tn,), (ic,), "float64", shards=(sh,))
+        kw = {"regions": (slice(a, a + n),)}
+        info = {"shape": (tn,), "target": target, "region": (a, a + n)}
+    x = G.stub_array("x", (n,), (c,))
+    with warnings.catch_warnings():
+        warnings.simplefilter("ignore")
+        (out,) = cubed.store([x], [target], compute=False, **kw)
+    return out, info
 
 
 def b_store_path(n, c):
